@@ -71,7 +71,8 @@ def lw_keys(ks):
     return dict(appkey=H(ks[0]), appskey=H(ks[1]), nwkskey=H(ks[2]))
 
 
-SW = {"BadMICError": 0, "MissingKeyError": 3, "AttributeError": 4, "ValueError": 5, "IndexError": 6, "error": 7}
+SW = {"BadMICError": 0, "MissingKeyError": 3, "AttributeError": 4, "ValueError": 5, "IndexError": 6, "error": 7,
+      "MissingRF4CESecurityFlag": 10, "MissingRF4CEHeader": 11}
 
 
 def lw_sweep(wire, keys):
@@ -205,6 +206,11 @@ def rf_sweep(c, wire, key):
 def do_rf(c):
     key = H(c["key"])
     res = {}
+    if c["mode"] == "nohdr":      # an 802.15.4 frame that carries no RF4CE layer (acknowledgement)
+        mk = lambda: Dot15d4(fcf_frametype=2, seqnum=c.get("seq", 5))
+        res["enc"] = rf_try(lambda: RF4CECryptoManager(key).encrypt(mk()))
+        res["dec"] = rf_try(lambda: RF4CECryptoManager(key).decrypt(mk()))
+        return res
     try:
         p = rf_wrap(c, rf_nwk(c))
         res["orig"] = bytes(p).hex()
